@@ -63,6 +63,25 @@ def programs(rnd, n, profile=None):
     return out[:max(n, len(FIXED_PROGRAMS))]
 
 
+def enumerated(rnd, ops, family, before=((), ("unroll",), ("validate",)), after=((),), modes=(True, False), programs_=None):
+    """every structured program x every listed transformation x in place or not, after each prefix of queries and
+    followed by each suffix (tuples of op names; a transformation name in a suffix is applied in place to the
+    result) -- the part of a check that does not depend on the random case mix"""
+    out = []
+    for src in (programs_ or FIXED_PROGRAMS):
+        for t in ops:
+            for inpl in modes:
+                for pre in before:
+                    for post in after:
+                        body = [(0, q) for q in pre] + [(0, t, inpl)]
+                        tgt, nmod = (0, 1) if inpl else (1, 2)
+                        for q in post:
+                            body.append((tgt, q, True) if q in modcorr.TRANSFORMS else (tgt, q))
+                        hist, nobs = hist_with_obs(rnd, body, nmod)
+                        out.append(dict(src=src, hist=hist, nobs=nobs, family=family))
+    return out
+
+
 def shrink_history(src, hist, nobs, fails):
     """drop calls (never the trailing observation block) while the disagreement persists"""
     body, obs = hist[:len(hist) - nobs], hist[len(hist) - nobs:]
